@@ -63,6 +63,9 @@ var refBlockAlgs = []refBlockAlg{
 	{"aes256-cbc", nsXenc + "aes256-cbc", "cbc", 32, 16, 16, 0, aes.NewCipher},
 	{"tripledes-cbc", nsXenc + "tripledes-cbc", "cbc", 24, 8, 8, 0, des.NewTripleDESCipher},
 	{"aes128-gcm", nsXenc11 + "aes128-gcm", "gcm", 16, 16, 12, 16, aes.NewCipher},
+	// round 8: the other AES-GCM identifiers of XML Encryption 1.1 (5.2.4), whether the package registers them or not
+	{"aes192-gcm", nsXenc11 + "aes192-gcm", "gcm", 24, 16, 12, 16, aes.NewCipher},
+	{"aes256-gcm", nsXenc11 + "aes256-gcm", "gcm", 32, 16, 12, 16, aes.NewCipher},
 }
 
 func refBlockByName(n string) *refBlockAlg {
@@ -765,6 +768,12 @@ func (c *xeCtx) blkBytes(b xeCt, n int) []byte {
 			flip(12, len(out)-16)
 		case "tag":
 			flip(len(out)-16, len(out))
+		case "trunc1": // the last octet cut off
+			out = out[:len(out)-1]
+		case "truncblk": // the last 16 octets cut off
+			out = out[:len(out)-16]
+		case "extblk": // 16 octets appended
+			out = append(out, c.random(16)...)
 		}
 		return out
 	default: // junk: random octets, or a genuine GCM cipher value cut / extended to n octets
